@@ -92,6 +92,8 @@ inductive Ev
   | xErr (who : String) | xCerr (o : Oid) | xDest (o t : Oid) | xCo (o : Oid) (tag : String) | xHb (o : Oid) (n : Nat)
   | meh (caught : Bool) (msg : String)
   | hbs (l : List String) | out (name : String) (text : String) | slots (n : Nat)
+  | refs (master simul : Int)
+  | slotIdx (l : List Nat)
   | crash (why : String)
   deriving Repr, DecidableEq
 
@@ -143,6 +145,7 @@ structure W where
   shutdown : Bool := false        -- g_proceeding_shutdown
   closedByScript : List Nat := []
   outs : List (Nat × String) := []   -- output of connections the driver has closed
+  masterRef : Int := 0            -- ghost: master_ob->ref relative to the start of backend()
   crashed : Option String := none
   trace : List Ev := []
 
@@ -327,7 +330,9 @@ def freeConnOf (w : W) (o : Oid) (id : Nat) (client : Nat) : W :=
   | none => crash w "remove_interactive: all_users is NULL"
   | some l =>
     let text := match findConn w id with | some c => c.out | none => ""
-    let w1 := setInter { w with users := some (freeSlot l id), outs := (client, text) :: w.outs } o none
+    -- free_object (ob, "remove_interactive"): for the master this is the reference mudlib_connect() took
+    let w1 := setInter { w with users := some (freeSlot l id), outs := (client, text) :: w.outs,
+                                masterRef := if o = .master then w.masterRef - 1 else w.masterRef } o none
     -- console user and stdin is not a tty: "Console input closed (pipe/file) - shutting down"
     if w.mode = .console && hasId id (l.headD none) then { w1 with shutdown := true } else w1
 
@@ -416,7 +421,7 @@ def bindTo (u : Oid) (c : Conn) : Conn := { c with ob := u, hasPI := true }
 /-- mudlib_connect(): master->connect(); on success the record moves from the master to the new user object -/
 def mudlibConnect (S : Scripts) (w : W) : W × Option Oid × Bool :=
   let k := w.nConnect + 1
-  let w := { w with nConnect := k }
+  let w := { w with nConnect := k, masterRef := w.masterRef + 1 }      -- add_ref (master_ob, "mudlib_connect")
   let w := emit w (.tConnect k)
   match S.connect k with
   | .err =>
@@ -430,7 +435,7 @@ def mudlibConnect (S : Scripts) (w : W) : W × Option Oid × Bool :=
     | some id =>
       -- ob->interactive = master_ob->interactive; ip->ob = ob; iflags |= HAS_PROCESS_INPUT; master_ob->interactive = 0
       let u := Oid.user (w.nUser + 1)
-      let w := { w with nUser := w.nUser + 1 }
+      let w := { w with nUser := w.nUser + 1, masterRef := w.masterRef - 1 }   -- free_object (master_ob, ...)
       (mapConn (setInter (setInter w .master none) u (some id)) id (bindTo u), some u, false)
 
 def logonHook (rh : HookFn) (w : W) (u : Oid) : R :=
@@ -779,9 +784,16 @@ def exitEv (w : W) : Ev := if w.shutdown then .exitShutdown else .exitLoop
 def outEv (e : Nat × String) : Ev := .out s!"c{e.1}" e.2
 def consoleOutEv (w : W) : Ev := .out "console" (String.join (((allOuts w).filter (fun e => e.1 = 0)).map (·.2)))
 
-/-- `exit ...`, `hbs`, `slots` -/
+/-- indices of the occupied slots of all_users[] -/
+def occupiedIdx : List (Option Conn) → Nat → List Nat
+  | [], _ => []
+  | none :: l, i => occupiedIdx l (i + 1)
+  | some _ :: l, i => i :: occupiedIdx l (i + 1)
+
+/-- `exit ...`, `hbs`, `refs`, `slots`, `slotidx` -/
 def finishHead (w : W) : W :=
-  emit (emit (emit w (exitEv w)) (.hbs (sortStrings (w.hbs.map Oid.name)))) (.slots (liveOuts w).length)
+  emit (emit (emit (emit (emit w (exitEv w)) (.hbs (sortStrings (w.hbs.map Oid.name)))) (.refs w.masterRef 0))
+    (.slots (liveOuts w).length)) (.slotIdx (occupiedIdx (slots w) 0))
 
 /-- final observations printed by the harness after backend() returned -/
 def finish (w : W) : W :=
